@@ -123,6 +123,18 @@ def run(chk):
                        "LockDiscipline.disciplined (or could not be translated): the step model of Concurrency.v no longer describes the "
                        "code; the schedule exploration found no non-linearizable outcome", "undisciplined_methods": bad_methods,
                        "detail": detail}, no_input=True)
+    if ok:
+        # the step model of Concurrency.v runs the *model's* operations under the lock: that those are the code's is the translation
+        # tie of C10 / C06 (budget.py = Budget.v, circuit.py = Breaker.v, for every state - also a deque whose stamps are out of
+        # order, which only concurrent callers with different clock readings can produce and no sequential history of C06 / C10 visits)
+        import source_tie
+        from concurrent.futures import ThreadPoolExecutor
+        with ThreadPoolExecutor(max_workers=2) as ex:
+            fb, fc = ex.submit(source_tie.budget_tie, chk), ex.submit(source_tie.circuit_tie, chk)
+            bt, ct = fb.result(), fc.result()
+        searched = "thread schedules of the scenarios (per-thread clock readings included): no non-linearizable outcome found"
+        source_tie.report(chk, bt, "budget", searched)
+        source_tie.report(chk, ct, "circuit", searched)
 
 
 def replay(path):
